@@ -132,7 +132,14 @@ func execRnd(a []Tok) string {
 	}
 	seed := int64(rest[0].Int())
 	v := stats.Rand(d)(rand.New(rand.NewSource(seed)))
-	again := stats.Rand(d)(rand.New(rand.NewSource(seed)))
+	// the same generator value used with other sources first: a draw may depend only on the
+	// source passed to that call
+	gen := stats.Rand(d)
+	other := rand.New(rand.NewSource(seed + 12345))
+	for i := 0; i < int(seed%5); i++ {
+		gen(other)
+	}
+	again := gen(rand.New(rand.NewSource(seed)))
 	var w float64
 	r2 := rand.New(rand.NewSource(seed))
 	switch dd := d.(type) {
@@ -237,6 +244,23 @@ func genC07(w *bufio.Writer, tier string, rng *rand.Rand) {
 		}
 		if rng.Intn(4) == 0 {
 			fmt.Fprintf(w, "rnd pw %s %d\n", pw, rng.Intn(1<<30))
+		}
+	}
+	// long histories through one closure (thousands of queries of one returned function)
+	for k := 0; k < pick(tier, 6, 60); k++ {
+		m := 1100 + rng.Intn(1500)
+		pool := []float64{0.5, 0.1, 0.9, rng.Float64(), rng.Float64(), 0.25}
+		ys := make([]float64, m)
+		for i := range ys {
+			ys[i] = pool[rng.Intn(1+rng.Intn(len(pool)))]
+		}
+		switch rng.Intn(3) {
+		case 0:
+			fmt.Fprintf(w, "inv pw %s %s\n", randPW(rng), fmtFs(ys))
+		case 1:
+			fmt.Fprintf(w, "inv pw [[%s,%s,%s],[%s,%s,%s]] %s\n", fmtF(2), fmtF(0), fmtF(0), fmtF(4), fmtF(1), fmtF(1), fmtFs(ys))
+		default:
+			fmt.Fprintf(w, "inv bin %d %s %s\n", 3+rng.Intn(20), fmtF(float64(1+rng.Intn(15))/16), fmtFs(ys))
 		}
 	}
 	for k := 0; k < pick(tier, 400, 8000); k++ {
